@@ -63,6 +63,20 @@ SIG_PRIO_LAST = "parse-line:IndexError:prio-last"
 
 # ------------------------------------------------------------------ helpers
 
+def compare(ctx: Ctx, stream: str, reqs, impls, pay) -> None:
+    """ctx.compare, retried when the driver binary is being relinked by a concurrent `lake build`"""
+    import time
+    from ..core import Infra
+    for attempt in range(4):
+        try:
+            ctx.compare(stream, reqs, impls, pay)
+            return
+        except (OSError, Infra):
+            if attempt == 3:
+                raise
+            time.sleep(5)
+
+
 def hexb(b: bytes) -> str:
     return "b:" + b.hex()
 
@@ -276,7 +290,7 @@ def stream_lines(ctx: Ctx) -> None:
         if exc is not None:
             sig = SIG_PRIO_LAST if exc == "IndexError" and any(prio_is_last(l) for l in line.splitlines()) else "parse-raises:" + exc
             ctx.fail(sig, {"base": BASE, "payload": line}, f"_parseInventory raised {exc} on the one-line payload {line!r}")
-    ctx.compare("lines", reqs, impls, pay)
+    compare(ctx, "lines", reqs, impls, pay)
     ctx.exhaustive = True
 
 
@@ -604,7 +618,7 @@ def stream_projects(ctx: Ctx) -> None:
         pay.append({"header": [pj, ver]})
         ctx.case(req, False)
         ctx.count("project:header")
-    ctx.compare("projects", reqs, impls, pay)
+    compare(ctx, "projects", reqs, impls, pay)
 
 
 # ------------------------------------------------------------------ stream (c): robustness
@@ -775,7 +789,7 @@ def stream_robust(ctx: Ctx) -> None:
         for kd in kinds:
             ctx.count("mutation:" + kd)
         one("line-mutation", [(URL, data)], {"session": [[URL, data.hex()]], "mutations": kinds, "text": t}, n_mut=len(kinds), expect_good=True)
-    ctx.compare("robustness", reqs, impls, pay)
+    compare(ctx, "robustness", reqs, impls, pay)
 
 
 def strip_comments_py(data: bytes) -> bytes:
